@@ -100,6 +100,10 @@ func (g *G) Stmt(depth int, ind string) string {
 			}
 			return c
 		}
+		if (inFn || g.o.InModule) && g.r.Intn(3) == 0 {
+			g.f("return-both-branches")
+			return "if " + g.Expr(TBool, 1) + " { return " + g.Expr(TInt, 1) + " } else { return " + g.Expr(TInt, 1) + " }"
+		}
 		if inFn || g.o.InModule {
 			g.f("early-return")
 			if g.r.Intn(2) == 0 {
@@ -324,6 +328,9 @@ func (g *G) Stmt(depth int, ind string) string {
 		lit := g.funcLit(t, d, false)
 		g.declare(name, t, true)
 		g.f("funcdef")
+		if g.o.CallDefined {
+			return name + " := " + lit + "\n" + ind + name + g.args(t, 1)
+		}
 		return name + " := " + lit
 	case k < 27: // recursion
 		name := g.fresh("rec")
@@ -357,7 +364,7 @@ func (g *G) Stmt(depth int, ind string) string {
 func (g *G) mapLoop(it T) string {
 	g.f("for-in:" + typeName(it))
 	iter := hdrExpr(g.Expr(it, 1))
-	k, v, acc := g.fresh("k"), g.fresh("e"), g.fresh("acc")
+	k, v, acc := g.fresh("mk"), g.fresh("me"), g.fresh("acc")
 	switch g.r.Intn(5) {
 	case 0:
 		g.declare(acc, TInt, false)
